@@ -203,7 +203,8 @@ EXPORT errno_t _wcsrtombs_s_chk(size_t *restrict retvalp, char *restrict dest,
 
     l = *retvalp = wcsrtombs(dest, srcp, (dest && len > dmax) ? dmax : len, ps);
 
-    if (likely(l < dmax)) {
+    /* a size query (dest is null) is not limited by dmax */
+    if (likely(l < dmax || (!dest && l != (rsize_t)-1))) {
         if (dest) {
 #ifdef SAFECLIB_STR_NULL_SLACK
             memset(&dest[l], 0, dmax - l);
